@@ -214,11 +214,26 @@ class GenTr(FxTr):
     def snapshot(self, env):
         return ({key: v.term for key, v in env["vars"].items()}, self.fx_term(env["fx"]), frozenset(env["drawn"]))
 
-    def unchanged(self, env, snap):
-        """nothing the code can observe differs from the snapshot (locals assigned since do not count)"""
+    def unchanged(self, env, snap, ignore=()):
+        """nothing the code can observe differs from the snapshot (locals assigned since, and the locals in `ignore`, do
+        not count)"""
         vars0, fx0, drawn0 = snap
-        return (all(key in env["vars"] and env["vars"][key].term == t for key, t in vars0.items())
+        return (all(key in env["vars"] and env["vars"][key].term == t for key, t in vars0.items()
+                    if not (key[0] == "local" and key[1] in ignore))
                 and self.fx_term(env["fx"]) == fx0 and frozenset(env["drawn"]) == drawn0)
+
+    def loop_locals(self, node, rest):
+        """the locals an iteration of `for` statement node (re)binds: targets, the hidden rest, everything assigned in the
+        body.  None of them may be read before it is written by an iteration or after the loop (the generated fix closes over
+        the values at loop entry): Unsupported otherwise"""
+        bound = {self.hidden(node)}
+        for n in ast.walk(node):
+            if isinstance(n, ast.Name) and isinstance(n.ctx, ast.Store):
+                bound.add(n.id)
+        carried = (bound - {self.hidden(node)}) & self.names_after([node] + list(rest))
+        if carried:
+            raise Unsupported(f"the for loop at line {node.lineno} carries {sorted(carried)} from one iteration to the next")
+        return bound
 
     # ---- objects: mentioned only inside listed patterns, and only where bound ----------------------------------------
     def check_bound(self, node, env, what):
@@ -575,6 +590,7 @@ class GenTr(FxTr):
             raise Unsupported("a loop variable is a listed object")
         ety = tys[0] if len(tys) == 1 else "(" + " * ".join(COQ_TY[t] for t in tys) + ")"
         ety = COQ_TY[ety] if len(tys) == 1 else ety
+        self.loop_locals(s, rest)
         idx = self.for_index[id(s)]
         fix, lv, xv = self.fresh(f"scan{idx}_"), self.fresh(f"l{idx}_"), self.fresh(f"x{idx}_")
         saved = dict(self.counters)
@@ -605,7 +621,7 @@ class GenTr(FxTr):
             raise Unsupported("the rest of the table of a for loop is not available here")
         if id(node) in env["forfix"]:
             fix, snap = env["forfix"][id(node)]
-            if not self.unchanged(env, snap):
+            if not self.unchanged(env, snap, ignore=self.loop_locals(node, rest)):
                 raise Unsupported(f"an iteration of the for loop at line {node.lineno} that reaches no yield changes state, "
                                   f"effects or draws")
             return f"({fix} {h.term})"
